@@ -278,6 +278,7 @@ int cs_param_fillers;
 int cs_real_scalars;
 int cs_ident_priors;
 cs_c cs_system_z0;
+double cs_solve_tolerance;
 int cs_apply_z0_mismatch;
 cs_c cs_apply_z0_expected, cs_apply_z0_got;
 
@@ -598,6 +599,12 @@ vnacal_new_t *cs_build(vnacal_t *vcp, cs_scenario *sc)
 	return NULL;
     }
     if (cs_system_z0 != 0.0 && vnacal_new_set_z0(vnp, cs_system_z0) == -1) {
+	vnacal_new_free(vnp);
+	return NULL;
+    }
+    if (cs_solve_tolerance != 0.0 &&
+	    (vnacal_new_set_p_tolerance(vnp, cs_solve_tolerance) == -1 ||
+	     vnacal_new_set_et_tolerance(vnp, cs_solve_tolerance) == -1)) {
 	vnacal_new_free(vnp);
 	return NULL;
     }
